@@ -347,16 +347,17 @@ def ob_update(name, G, mode):
     E = edges_of(G)
     funcs = [f"{RN} ResNetwork.update_resistances/average_effective_resistance/diameter_effective_resistance/effective_resistance/"
              "admittive_degree/get_R"]
-    cd1, hyps, _ = conductances(G, 1 if mode == "change" else 0, 0, "c")
+    cd1, hyps, _ = conductances(G, 1 if mode in ("change", "inplace") else 0, 0, "c")
     if mode == "scale":
         s = z3.Real("scale")
-        hyps = hyps + [s > 0]
+        hyps = hyps + [s > 0, s != 1]
         cd2 = {e: div(v, s) for e, v in cd1.items()}                 # all resistances times s
     else:
         cd2, h2, _ = conductances(G, 1, 3, "d")
         hyps = hyps + h2
     bound = f"topology {G}, " + ("all resistances multiplied by a symbolic factor" if mode == "scale" else
-                                  "one symbolic conductance before and after, the others changed between concrete values")
+                                  "one symbolic conductance before and after, the others changed between concrete values") + \
+        (" -- the caller modifies the array it passed before (net.resistances) in place and passes it again" if mode == "inplace" else "")
     state = State()
 
     def harness(ex):
@@ -375,7 +376,17 @@ def ob_update(name, G, mode):
                 ad1 = [num(x) for x in net.admittive_degree()]
                 # the change
                 state.cur = cd2
-                net.update_resistances(res_matrix(n, cd2))
+                if mode == "inplace":
+                    Rm, R2 = net.resistances, res_matrix(n, cd2)
+                    for a_ in range(n):
+                        for b_ in range(n):
+                            Rm[a_, b_] = R2[a_, b_]
+                    net.update_resistances(Rm)
+                else:
+                    net.update_resistances(res_matrix(n, cd2))
+                if len(state.calls) < 2:
+                    out.append(("update_resistances did not recompute the pseudo-inverse for changed resistances", [True]))
+                    return [(l, cs) for l, cs in out]
                 _, _, X2 = state.calls[-1]
                 spec2 = lambda a, b: 0 if a == b else sub(add(X2[a][a], X2[b][b]), add(X2[a][b], X2[b][a]))
                 pairs2 = [spec2(i, j) for i in range(n) for j in range(i)]
@@ -410,7 +421,7 @@ def ob_update(name, G, mode):
 
     def witfn(m):
         mv = lambda v: sx.model_value(m, v) if sx.is_sym(v) else v
-        return {"kind": "update", "G": G, "c1": {f"{a},{b}": mv(v) for (a, b), v in cd1.items()},
+        return {"kind": "update", "G": G, "inplace": mode == "inplace", "c1": {f"{a},{b}": mv(v) for (a, b), v in cd1.items()},
                 "c2": {f"{a},{b}": mv(v) for (a, b), v in cd2.items()}}
     return decide(name, hyps, paths, funcs, bound, f"C18|ResNetwork.update_resistances|{mode}", witfn)
 
@@ -548,6 +559,7 @@ def obligations(tier):
     for k, G in enumerate(c3 + c4[:(6 if th else 3)]):
         obs.append((ob_update, dict(name=f"C18|update_resistances|change|n={len(G)}#{k}", G=G, mode="change"), 1500))
         obs.append((ob_update, dict(name=f"C18|update_resistances|scale|n={len(G)}#{k}", G=G, mode="scale"), 1500))
+        obs.append((ob_update, dict(name=f"C18|update_resistances|in place|n={len(G)}#{k}", G=G, mode="inplace"), 1500))
     for N in ((1, 2, 3) if not th else (1, 2, 3, 4)):
         obs.append((ob_current_flow, dict(name=f"C18|current-flow kernels|N={N}", N=N), 1800))
     for k, G in enumerate(c3 + (c4[:2] if th else [])):
@@ -584,7 +596,11 @@ def replay(w):
         net.average_effective_resistance()
         net.diameter_effective_resistance()
         _, R2 = _net(G, w["c2"])
-        net.update_resistances(R2)
+        if w.get("inplace"):
+            net.resistances[...] = R2
+            net.update_resistances(net.resistances)
+        else:
+            net.update_resistances(R2)
         ER, C, X = _ref_er(R2)
         n = len(G)
         got = {"diameter": net.diameter_effective_resistance(), "average": net.average_effective_resistance(),
